@@ -1,23 +1,27 @@
 #!/usr/bin/env python3
 """Parallel machinery self-test (not a MANIFEST command): like bin/selftest.py, but W workers, each with its own scratch
 worktree of /repo under /tmp (removed afterwards) and its own build directory (build/*-<hash>), so /repo is not touched.
-usage: bin/selftest_par.py [W] [substring filter]"""
+usage: bin/selftest_par.py [W] [substring filter] [comma-separated check IDs: only these checks are run]
+env ST_TAG: suffix for the scratch worktrees / evidence directories (two self-tests can run side by side)"""
 import json, os, subprocess, sys, threading
 V = os.path.dirname(os.path.dirname(os.path.abspath(__file__)))
 W = int(sys.argv[1]) if len(sys.argv) > 1 else 4
 flt = sys.argv[2] if len(sys.argv) > 2 else ""
-exp = [(p, c) for p, c in json.load(open(os.path.join(V, "mutants", "EXPECT.json"))).items() if flt in p]
+only = set(sys.argv[3].split(",")) if len(sys.argv) > 3 else None
+tag = os.environ.get("ST_TAG", "")
+exp = [(p, [x for x in c if only is None or x in only]) for p, c in json.load(open(os.path.join(V, "mutants", "EXPECT.json"))).items() if flt in p]
+exp = [(p, c) for p, c in exp if c]
 head = subprocess.run(["git", "-C", "/repo", "rev-parse", "HEAD"], capture_output=True, text=True).stdout.strip()
 lock = threading.Lock()
 bad = []
 
 
 def worker(w):
-    wt = "/tmp/st-%d" % w
+    wt = "/tmp/st%s-%d" % (tag, w)
     subprocess.run(["git", "-C", "/repo", "worktree", "remove", "--force", wt], capture_output=True)
     subprocess.run(["git", "-C", "/repo", "worktree", "add", "--detach", wt, head], capture_output=True, check=True)
     env = dict(os.environ, VERIF_REPO=wt, VERIF_JOBS=str(max(2, (os.cpu_count() or 4) // W)),
-               VERIF_EVIDENCE_DIR=os.path.join(V, "build", "mutant-evidence-%d" % w))
+               VERIF_EVIDENCE_DIR=os.path.join(V, "build", "mutant-evidence%s-%d" % (tag, w)))
     try:
         for i, (patch, checks) in enumerate(exp):
             if i % W != w:
